@@ -7,15 +7,14 @@
   `g.first / g.next / g.iter / g.size / g.validate / g.bind / g.random` are the implementation
   model (PgModel/Geno/Enum.lean). `succIn l d` is the element following `d` in `l`.
 
-  Staging (DESIGN §6 C11): each clause is stated in full as `def …_Full : Prop`. Proved in full
-  (every finite well-formed spec: spaces, single and multi choices in all four distinct × sorted
-  modes, conditional sub-spaces of any depth): first / next / iteration / no repetition / the
-  iterated set is the valid set; `validate`, binding (outside F20c) and `random_dna` for every
-  spec; strict monotonicity w.r.t. `DNA.__cmp__`. Still staged: the counting recurrences for
-  multi-choices (`C11_size_Full`: proved as `C11_size_partial` for specs without
-  `num_choices > 1`); the equality `space_size = |all|` is evaluated by the driver on every
-  enumerated spec of the correspondence run, including the exhaustive small-scope family —
-  labelled as such in the evidence, not claimed as a theorem.
+  Every clause of the property is stated in full as `def …_Full : Prop` and PROVED for every finite
+  well-formed spec (spaces, single and multi choices in all four distinct × sorted modes,
+  conditional sub-spaces of any depth and width): first / next / iteration / no repetition /
+  strictly increasing / the iterated set is the valid set / `space_size` = number of members;
+  `validate`, binding and `random_dna` for every spec (floats and custom points included). The one
+  statement that is NOT a theorem is `C11_bind_Full`: binding a float ignores the node's children
+  (known finding F20c); it is refuted by `C11_bind_counterexample` and replaced by
+  `C11_bind_partial`, whose exclusion `floatLeaves` is exactly the signature of that finding.
 -/
 import PgProofs.GenoIter
 import PgProofs.GenoValid
@@ -24,6 +23,7 @@ import PgProofs.GenoBind
 import PgProofs.GenoRandom
 import PgProofs.GenoOdo3
 import PgProofs.GenoIncr
+import PgProofs.GenoCount
 namespace Pg.Geno
 
 /-! ### Full statements -/
@@ -122,19 +122,16 @@ theorem C11_iter_exact (g : Spec) (hf : g.finite = true) (hw : g.wf = true)
     ∃ l, g.iter fuel = some (l, true) ∧ l.Nodup ∧ ∀ d, d ∈ l ↔ Valid g d :=
   ⟨g.all, C11_iter g hf hw fuel hfuel, C11_all_nodup g hf hw, fun d => C11_spec_sound_complete g hf d⟩
 
-/-! ### Proved: specs without multi-choices (spaces, single choices, conditional sub-spaces of any
-depth and width) -/
-
-/-- The counting recurrences (sum over candidates, product over elements) are correct. -/
-theorem C11_size_partial (g : Spec) (hf : g.finite = true) (hw : g.wf = true) (hm : g.noMulti = true) :
-    g.size = some g.all.length :=
-  size_eq g hf hw hm
+/-- The counting recurrences of `Choices.space_size` (all four distinct × sorted cases) and the
+product of `Space.space_size` are correct: `space_size` is the number of members. -/
+theorem C11_size : C11_size_Full :=
+  fun g hf _ => size_eq_all g hf
 
 /-- Hence: iteration yields exactly `space_size` DNAs, pairwise different, and ends with no
 successor. -/
-theorem C11_iter_count_partial (g : Spec) (hf : g.finite = true) (hw : g.wf = true) (hm : g.noMulti = true) :
+theorem C11_iter_count (g : Spec) (hf : g.finite = true) (hw : g.wf = true) :
     ∃ n l, g.size = some n ∧ g.iter (n + 1) = some (l, true) ∧ l.length = n ∧ l.Nodup ∧ l = g.all :=
-  ⟨g.all.length, g.all, C11_size_partial g hf hw hm,
+  ⟨g.all.length, g.all, C11_size g hf hw,
    C11_iter g hf hw _ (Nat.lt_succ_self _), rfl, C11_all_nodup g hf hw, rfl⟩
 
 /-- The Sweeping generator proposes the same sequence as `iter_dna` (for every spec: it is the
@@ -167,21 +164,22 @@ theorem C11_bind_counterexample : ¬ C11_bind_Full := by
 
 /-! ### Non-vacuity and instances -/
 
-/-- A spec with a conditional sub-space that satisfies the hypotheses of the partial theorems. -/
+/-- A spec with a conditional sub-space that satisfies the hypotheses of the theorems. -/
 def exampleSpec : Spec :=
   .space [.choices 1 [[], [.choices 1 [[], []] true false {}, .choices 1 [[], [], []] true false {}]] true false {},
           .choices 1 [[], []] true false {}]
 
-example : exampleSpec.finite = true ∧ exampleSpec.wf = true ∧ exampleSpec.noMulti = true := by decide
+example : exampleSpec.finite = true ∧ exampleSpec.wf = true := by decide
 example : exampleSpec.all.length = 14 := by decide
 example : ∀ d ∈ exampleSpec.all, hnorm d = true ∧ floatLeaves d = true := by decide
 example : exampleSpec.iter 15 = some (exampleSpec.all, true) := by decide
 
-/-- Instances of the full statements on multi-choices (all four `distinct × sorted` modes, with a
-conditional candidate): evidence that the staged statements are the right ones, not a proof. -/
+/-- Multi-choices in all four `distinct × sorted` modes with a conditional candidate satisfy the
+hypotheses (and, as instances, the conclusions) of the theorems. -/
 def exampleMulti (d s : Bool) : Spec :=
   .point (.choices 2 [[], [.choices 1 [[], []] true false {}], []] d s {})
 
+example : ∀ d s, (exampleMulti d s).finite = true ∧ (exampleMulti d s).wf = true := by decide
 example : ∀ d s, (exampleMulti d s).iter 40 = some ((exampleMulti d s).all, true) := by decide
 example : ∀ d s, (exampleMulti d s).size = some (exampleMulti d s).all.length := by decide
 example : ((exampleMulti true true).random [.sample [2, 1], .sample [0]]).isSome = true := by decide
